@@ -3,6 +3,7 @@ package engine
 import (
 	"bytes"
 	"context"
+	"encoding/base64"
 	"encoding/hex"
 	"encoding/json"
 	"errors"
@@ -26,6 +27,7 @@ import (
 	"github.com/bartventer/httpcache/verifsim/simgo"
 	"github.com/bartventer/httpcache/verifsim/simos"
 	"github.com/bartventer/httpcache/verifsim/simrand"
+	"github.com/bartventer/httpcache/verifsim/simsync"
 )
 
 // SHist is one store-level operation in the recorded history.
@@ -154,6 +156,7 @@ func RunSsim(scn *Scenario) *Run {
 	simos.Reset(diskHook{r})
 	simrand.SetHook(r.randHook)
 	simgo.SetHook(r.goHook)
+	simsync.SetHook(r.lockHook)
 	simos.WriteChunk = scn.WChunk
 	if scn.Backend == "fsenc" {
 		r.plainWatch = true
@@ -217,6 +220,7 @@ func RunSsim(scn *Scenario) *Run {
 	simos.SetHook(nil)
 	simrand.SetHook(nil)
 	simgo.SetHook(nil)
+	simsync.SetHook(nil)
 	return r
 }
 
@@ -396,8 +400,8 @@ func (r *Run) sclient(phase, ci int, cl *SClient) {
 			r.fired("config.wrong-key")
 			ret(fmt.Sprintf("rekey ok=%v", h.OK))
 		case "open-badkey":
-			h.Inv = r.Sim.Event(g, "s.open-badkey", fmt.Sprintf("variant=%d", op.Arg%6))
-			c2, err := r.openBadKey(op.Arg % 6)
+			h.Inv = r.Sim.Event(g, "s.open-badkey", fmt.Sprintf("variant=%d", op.Arg%badKeyVariants))
+			c2, err := r.openBadKey(op.Arg % badKeyVariants)
 			h.OK = err == nil
 			if err != nil {
 				h.Err = err.Error()
@@ -562,6 +566,9 @@ func (r *Run) onlyFile() []byte {
 	return nil
 }
 
+// badKeyVariants: ways of asking for encryption without a usable key (openBadKey)
+const badKeyVariants = 10
+
 func (r *Run) openBadKey(variant int) (driver.Conn, error) {
 	simos.Unsetenv("FSCACHE_ENCRYPT_KEY")
 	switch variant {
@@ -575,6 +582,18 @@ func (r *Run) openBadKey(variant int) (driver.Conn, error) {
 		return store.Open("fscache:///simcache?appname=app&encrypt=aesgcm&encrypt_key=MDEyMzQ1Njc4OQ==")
 	case 4:
 		return store.Open("fscache:///simcache?appname=app&encrypt=aesgcm&encrypt_key=")
+	case 6, 7, 8, 9:
+		// keys that decode to more bytes than any AES key has (33, 40, 48, 64), through every way of passing one
+		k := base64.URLEncoding.EncodeToString(bytes.Repeat([]byte{'k'}, []int{33, 40, 48, 64}[variant-6]))
+		switch variant {
+		case 6, 9:
+			return fscache.Open("app", fscache.WithBaseDir("/simcache"), fscache.WithEncryption(k))
+		case 7:
+			return store.Open("fscache:///simcache?appname=app&encrypt=aesgcm&encrypt_key=" + k)
+		}
+		simos.Setenv("FSCACHE_ENCRYPT_KEY", k)
+		defer simos.Unsetenv("FSCACHE_ENCRYPT_KEY")
+		return store.Open("fscache:///simcache?appname=app&encrypt=on")
 	default:
 		simos.Setenv("FSCACHE_ENCRYPT_KEY", "c2hvcnQ=")
 		defer simos.Unsetenv("FSCACHE_ENCRYPT_KEY")
@@ -863,7 +882,7 @@ func JudgeSsim(r *Run) *Judged {
 			case "open-badkey":
 				j.count("C17", "plaintext-fallback")
 				if h.OK {
-					vfail("C17", "plaintext-fallback", fmt.Sprint(h.Op.Arg%6), h, "opening the backend with encryption requested but no usable key (variant %d) succeeded instead of failing", h.Op.Arg%6)
+					vfail("C17", "plaintext-fallback", fmt.Sprint(h.Op.Arg%badKeyVariants), h, "opening the backend with encryption requested but no usable key (variant %d) succeeded instead of failing", h.Op.Arg%badKeyVariants)
 				}
 			case "get", "get-mutate":
 				if mode, ok := tampered[h.Key]; ok {
